@@ -327,13 +327,12 @@ Definition check_estimate (sv : serviceQ) (v : vehicleQ) (sm : smodel QN) (hav_m
         near3 (slot sm prev n_liquid) (slot sm cur n_liquid)
               (E * k_energy (energy_rate_energy_unit (pm_eru r)) (feature_energy_unit sm n_liquid))%Q)]
   | BEV r cap _ bu | PHEV _ r cap _ bu =>
-      (* the code labels the best-case energy with the battery unit (exact when the rate's energy
-         unit IS the battery unit, the only configuration the checker is given) *)
       let E := spec_best_case sv r hav_m in
+      let eu := energy_rate_energy_unit (pm_eru r) in
       let s0 := slot sm prev n_soc in
-      let u := (s0 - 100 * E / cap)%Q in
+      let u := (s0 - 100 * (E * k_energy eu bu) / cap)%Q in
       [("best-case=ideal*distance",
-        near3 (slot sm prev n_electric) (slot sm cur n_electric) (E * k_energy bu (feature_energy_unit sm n_electric))%Q);
+        near3 (slot sm prev n_electric) (slot sm cur n_electric) (E * k_energy eu (feature_energy_unit sm n_electric))%Q);
        ("soc-in-0-100", Qle_bool 0 (slot sm cur n_soc) && Qle_bool (slot sm cur n_soc) 100);
        ("soc-step", near (slot sm cur n_soc) (clampQ u) (100 + Qabs u)%Q)]
   end.
